@@ -387,13 +387,17 @@ func (s *Subscriber) OnSyncFinished() (<-chan SyncFinished, context.CancelFunc) 
 	return cq.Out(), cncl
 }
 
-// RemoveHandler removes a handler for a publisher.
+// RemoveHandler removes a handler for a publisher. A handler that is in use,
+// by a sync that is running or waiting to run or by a pending announcement,
+// is not removed, so that the syncs of a publisher stay serialized. It is
+// removed by the idle handler cleaner once it is no longer in use.
 func (s *Subscriber) RemoveHandler(peerID peer.ID) bool {
 	s.handlersMutex.Lock()
 	defer s.handlersMutex.Unlock()
 
 	// Check for existing handler, remove if found.
-	if _, ok := s.handlers[peerID]; !ok {
+	hnd, ok := s.handlers[peerID]
+	if !ok || hnd.users != 0 {
 		return false
 	}
 
